@@ -59,7 +59,9 @@ func TestReverseCanonical(t *testing.T) {
 	const check = "reverse_canonical"
 	stats.Rule(check, "a valid value of a generated shape is reference-encoded (with its field map); the input is that encoding unchanged (1/6), a structure-aware mutation of it (hostile lengths/counts/optional markers, bool 2..255, changed type codes, truncation at field boundaries, swapped/duplicated/dropped collection elements, counts outside bounds, time stamps beyond int64, garbage, byte havoc, random tails) or raw random bytes; oracle: Decode(validation) accepts n bytes => Encode(decoded, validation) succeeds and equals input[:n] (time-stamp fields > MaxInt64 ns excused and counted); the unchanged reference encoding must be accepted; mutations that plant a rule violation must be rejected (by both decoders for bool/optional-marker/duplicate-map-key/truncation, by the validating decoder for order/no-dup/type-uniqueness/must-occur/bounds). Distinct by (shape, input bytes); non-trivial = accepted mutated input, or a planted rule violation")
 	rapid.Check(t, func(rt *rapid.T) {
-		c := serixgen.NewCase(rt, cfg())
+		conf := cfg()
+		conf.FocusTypeRules = rapid.IntRange(0, 5).Draw(rt, "focusTypeRules") == 0
+		c := serixgen.NewCase(rt, conf)
 		v, vl := serixgen.GenValue(rt, c.Root, serixgen.ValidMode, cfg())
 		ref := serixgen.RefEncode(c.Root, v, true)
 		if ref.Reject != "" {
